@@ -44,18 +44,28 @@ def _cvc5_check(solver, extra, strings=False):
 
 def check(solver: z3.Solver, *extra, timeout_ms=None, strings=False):
     """sat/unsat/unknown with fallback; returns (answer, backend, reason, model|None)"""
-    solver.set('timeout', timeout_ms or Z3_TIMEOUT_MS)
-    solver.push()
-    try:
-        solver.add(*extra)
-        r = solver.check()
-        if r == z3.sat:
-            return 'sat', 'z3', '', solver.model()
-        if r == z3.unsat:
-            return 'unsat', 'z3', '', None
-        reason = solver.reason_unknown()
-    finally:
-        solver.pop()
+    total = timeout_ms or Z3_TIMEOUT_MS
+    # the same query is occasionally pathological for one random seed and instant for another (unstable queries): the z3 budget is split over
+    # three attempts with different seeds (1/4, 1/4, 1/2 of the budget) before the other solver is asked
+    reason = ''
+    for attempt, share in enumerate((4, 4, 2)):
+        s2 = solver if attempt == 0 else z3.Solver()
+        if attempt:
+            s2.add(*solver.assertions()); s2.set('random_seed', attempt); s2.set('smt.random_seed', attempt)
+        s2.set('timeout', max(200, total // share))
+        s2.push()
+        try:
+            s2.add(*extra)
+            r = s2.check()
+            if r == z3.sat:
+                return 'sat', 'z3', '', s2.model()
+            if r == z3.unsat:
+                return 'unsat', 'z3', '', None
+            reason = s2.reason_unknown()
+        finally:
+            s2.pop()
+        if 'timeout' not in reason and 'canceled' not in reason:
+            break
     ans, why = _cvc5_check(solver, extra, strings)
     if ans == 'unknown':
         return 'unknown', 'z3+cvc5', f'z3: {reason}; cvc5: {why}', None
